@@ -918,7 +918,7 @@ func run(c *core.Ctx) {
 	// exhaustive small scope: every operation, and every pair of operations, after a prefix that
 	// provides live, foreign, removed, zero-Element and nil handles (rings: two rings, a zero Ring, nil)
 	la, ra := listAlphabet(5), ringAlphabet(4)
-	every := c.N(16, 2, 1) // of the pairs, every n-th goes to the model as well
+	every := c.N(24, 2, 1) // of the pairs, every n-th goes to the model as well
 	k := 0
 	for _, x := range la {
 		execCase(c, Case{"list", cat(listPrefix, x)}, true)
